@@ -53,6 +53,12 @@ func ReadDuty(d *attester.Duty) Duty {
 // bubble).  The signer and the submitter are those of c04_overlap.go (they sign what they are given at
 // call time and check that their arguments are unchanged when the call returns).
 func RunHistoryWithDuties(t *testing.T, h History, prepare func(ctx context.Context) (given []*attester.Duty, skip []bool)) Observed {
+	return RunHistoryC04(t, h, prepare, Extra{})
+}
+
+// RunHistoryC04 is RunHistoryWithDuties on a service built with the process concurrency and a signer
+// with the per-account latencies of x (c04_conc.go).
+func RunHistoryC04(t *testing.T, h History, prepare func(ctx context.Context) (given []*attester.Duty, skip []bool), x Extra) Observed {
 	logOnce.Do(func() { zerologger.Logger = zerologger.Output(io.Discard) })
 	var obs Observed
 	started := time.Now()
@@ -68,16 +74,17 @@ func RunHistoryWithDuties(t *testing.T, h History, prepare func(ctx context.Cont
 		if prepare != nil {
 			given, skip = prepare(ctx)
 		}
+		e2 := &env2{env: e, signLat: x.SignLat}
 		svc, err := standardattester.New(ctx,
 			standardattester.WithLogLevel(level),
 			standardattester.WithMonitor(nullmetrics.New()),
-			standardattester.WithProcessConcurrency(1),
+			standardattester.WithProcessConcurrency(x.concurrency()),
 			standardattester.WithChainTime(mocks.NewChainTime(h.SPE)),
 			standardattester.WithSpecProvider(specProvider{h.SPE}),
 			standardattester.WithAttestationDataProvider(e),
-			standardattester.WithAttestationsSubmitter(&env2{e}), // c04_overlap.go: arguments are looked at again at return
+			standardattester.WithAttestationsSubmitter(e2), // c04_overlap.go: arguments are looked at again at return
 			standardattester.WithValidatingAccountsProvider(e),
-			standardattester.WithBeaconAttestationsSigner(&env2{e}),
+			standardattester.WithBeaconAttestationsSigner(e2),
 		)
 		if err != nil {
 			obs.Problem = "constructor: " + err.Error()
